@@ -52,6 +52,10 @@ PROPS = [
     (['text={x y; z}'], {'text': 'x y; z'}),
     (['text="quoted # text"'], {'text': 'quoted # text'}),
     (["text='single q'"], {'text': 'single q'}),
+    # braces delimit: quote characters at the edges of the label belong to the label
+    (['text={r = 10"}'], {'text': 'r = 10"'}),
+    (['text={"NGC 5194" core}', 'color=red'], {'text': '"NGC 5194" core', 'color': 'red'}),
+    (["tag={5'}", "text={radius 5'}"], {'tags': ["5'"], 'text': "radius 5'"}),
     (['select=0', 'fixed=1'], {'meta': {'select': 0, 'fixed': 1}}),
     (['color=#ff8800', 'dash=1'], {'color': '#ff8800'}),
     (['font="times 12 bold"', 'fill=1', 'color=Cyan'], {'color': 'Cyan'}),
